@@ -408,6 +408,14 @@ class CallModels:
             iv, ok = eng.as_int(b, st)
             if isinstance(oa, OList) and oa.concrete and iv is not None and iv.op == 'int':
                 return [(st, st.alloc(OList(items=oa.items * iv.args[0]), 'list'))]
+            if isinstance(oa, OList) and oa.concrete and len(oa.items) == 1 and iv is not None:
+                # [x] * n for a symbolic n: n copies of x (none when n <= 0)
+                def go_rep(st1):
+                    elt = eng.to_dyn(oa.items[0], st1)
+                    arr = t.T('VArr', 'constvarr', ())
+                    arr._s = '((as const (Array Int Val)) %s)' % elt.smt()
+                    return [(st1, st1.alloc(OList(arr=arr, ln=t.imax(iv, t.ZERO), ekind='val'), 'list'))]
+                return eng.typed(st, ok, go_rep, 'list * count')
         ia, oka = eng.as_int(a, st)
         ib, okb = eng.as_int(b, st)
         if ia is not None and ib is not None:
